@@ -1,7 +1,7 @@
 (* C09 — What the broker decodes is exactly what the application asked to send.  Statements only. *)
 From Coq Require Import List NArith.
-From Minimq Require Import Bytes Varint Utf8 Props Ser De Reader Arena Core.
-From Minimq Require Import VarintProofs SerLemmas CodecProofs Status.
+From Minimq Require Import Bytes Varint Utf8 Props Ser De Broker Reader Arena Core.
+From Minimq Require Import VarintProofs SerLemmas CodecProofs Status BrokerProofs.
 Import ListNotations.
 Open Scope N_scope.
 
@@ -48,6 +48,64 @@ Proof. exact clean_start_mirror. Qed.
 Theorem C09_connect_client_id : forall s, cq_client_id (connect_request s) = s_client_id s.
 Proof. exact connect_client_id. Qed.
 
+(* ---------------- every other client packet: the broker-side decoder (Model/Broker.v, written from MQTT 5 sections
+   3.1, 3.8, 3.10, 3.14) reads from the encoder's output exactly the request — for every request the encoder accepts,
+   every buffer size, all lengths symbolic.  `props_ok` = every property value fits its Rust type and uses the
+   canonical fields of the model's record (what the harness and the API can build). ---------------- *)
+Theorem C09_connect_decodes_to_request : forall cap r off bs,
+  enc_connect cap r = SOk off bs -> cq_keepalive r < 65536 -> props_ok (cq_props r) ->
+  (forall w, cq_will r = Some w -> props_ok (w_props w)) ->
+  broker_decode bs = Some (BConnect r).
+Proof. exact connect_roundtrip. Qed.
+
+(* the CONNECT a session sends: client id, clean start, keep-alive, session expiry, Receive Maximum 8, Maximum Packet
+   Size = the receive buffer, will, credentials — as configured *)
+Theorem C09_session_connect_decodes : forall s cap off bs,
+  cf_expiry (s_cfg s) < 4294967296 ->
+  (forall w, cf_will (s_cfg s) = Some w -> props_ok (w_props w)) ->
+  enc_connect cap (connect_request s) = SOk off bs ->
+  broker_decode bs = Some (BConnect (connect_request s)) /\
+  cq_keepalive (connect_request s) = cf_keepalive_s (s_cfg s) mod 65536 /\
+  cq_clean (connect_request s) = negb (s_sp s) /\ cq_client_id (connect_request s) = s_client_id s /\
+  cq_will (connect_request s) = cf_will (s_cfg s) /\ cq_auth (connect_request s) = cf_auth (s_cfg s) /\
+  In (mkprop KMaximumPacketSize (rcap (s_reader s) mod 4294967296) [] []) (cq_props (connect_request s)) /\
+  In (mkprop KSessionExpiryInterval (cf_expiry (s_cfg s)) [] []) (cq_props (connect_request s)) /\
+  In (mkprop KReceiveMaximum 8 [] []) (cq_props (connect_request s)).
+Proof. exact session_connect_decodes. Qed.
+
+Theorem C09_subscribe_decodes_to_request : forall cap r off bs,
+  enc_subscribe cap r = SOk off bs -> sq_pid r < 65536 -> props_ok (sq_props r) -> sq_topics r <> [] ->
+  Forall (fun t : bytes * sub_opts => so_rh (snd t) <= 2) (sq_topics r) ->
+  broker_decode bs = Some (BSubscribe r).
+Proof. exact subscribe_roundtrip. Qed.
+
+Theorem C09_unsubscribe_decodes_to_request : forall cap r off bs,
+  enc_unsubscribe cap r = SOk off bs -> uq_pid r < 65536 -> props_ok (uq_props r) -> uq_topics r <> [] ->
+  broker_decode bs = Some (BUnsubscribe r).
+Proof. exact unsubscribe_roundtrip. Qed.
+
+(* DISCONNECT: the reason the broker reads is the ReasonCode the request holds (a byte naming no variant is
+   ReasonCode::Unknown = 0xFF, rc_norm); properties only together with a reason *)
+Theorem C09_disconnect_decodes_to_request : forall cap r off bs,
+  enc_disconnect cap r = SOk off bs ->
+  (dq_reason r = None -> dq_props r = None) ->
+  (forall l, dq_props r = Some l -> props_ok l) ->
+  broker_decode bs = Some (BDisconnect {| dq_reason := match dq_reason r with Some c => Some (rc_norm c) | None => None end;
+                                          dq_props := dq_props r |}).
+Proof. exact disconnect_roundtrip. Qed.
+
+(* acknowledgements: identifier and reason read back by the packet decoder *)
+Theorem C09_ack_decodes_to_request : forall typ pid rc off bs, In typ [4; 5; 6; 7] -> pid < 65536 ->
+  enc_ack CONTROL_PACKET_LEN typ pid rc = SOk off bs -> from_buffer bs = Some (ack_packet_of typ pid (rc_norm rc)).
+Proof. exact ack_roundtrip. Qed.
+
+(* the premises are met by a request with will, credentials, properties and several filters (computed) *)
+Theorem C09_roundtrip_examples :
+  (exists off bs, enc_connect 100 ex_connect = SOk off bs /\ broker_decode bs = Some (BConnect ex_connect)) /\
+  (exists off bs, enc_subscribe 100 ex_subscribe = SOk off bs /\ broker_decode bs = Some (BSubscribe ex_subscribe)) /\
+  forallb prop_wf (cq_props ex_connect) = true /\ forallb prop_canon (sq_props ex_subscribe) = true.
+Proof. exact roundtrip_examples. Qed.
+
 Print Assumptions C09_property_size.
 Print Assumptions C09_block_size.
 Print Assumptions C09_varint_length.
@@ -58,3 +116,10 @@ Print Assumptions C09_publish_decodes_to_request.
 Print Assumptions C09_properties_decode_to_request.
 Print Assumptions C09_connect_clean_start.
 Print Assumptions C09_connect_client_id.
+Print Assumptions C09_connect_decodes_to_request.
+Print Assumptions C09_session_connect_decodes.
+Print Assumptions C09_subscribe_decodes_to_request.
+Print Assumptions C09_unsubscribe_decodes_to_request.
+Print Assumptions C09_disconnect_decodes_to_request.
+Print Assumptions C09_ack_decodes_to_request.
+Print Assumptions C09_roundtrip_examples.
